@@ -96,7 +96,8 @@ LawC03Amount ==
 \* splits into portions without remainders, which lets the harness run it at K * 2^55 and compare (see nsconf)
 K == 84
 \* amounts 1, 3, 4: at K * 2^55 they still fit a machine word
-UsesK(cs) == Family \in {"src1", "src2", "dst1", "dst2"} /\ HasPorts(cs.sends) /\ cs.sends[1].amt \in {1, 3, 4}
+\* only the families whose portions are not nested: below a portion of a portion K would have to be a multiple of products
+UsesK(cs) == Family \in {"src1", "dst1"} /\ HasPorts(cs.sends) /\ cs.sends[1].amt \in {1, 3, 4}
 Emit == TLCGet("stats").generated >= 0 /\
         ndJsonSerialize(OutFile, SetToSeq({[sends |-> cs.sends, bal |-> cs.bal, exp |-> Out(cs),
                                             k |-> IF UsesK(cs) THEN K ELSE 0,
